@@ -355,14 +355,33 @@ func runRows(e *core.Env, prop string) error {
 							val = w[12:]
 						}
 					}
-				default: // data leaf: we do not know the decoded bytes here; use random-ish operands
+				default: // data leaf: operands taken from the words of the encoded value (so that the rows an
+					// array decodes into get DIFFERENT verdicts), or random
+					var words [][]byte
+					for _, tok := range strings.Split(ec.val, ",") {
+						if strings.HasPrefix(tok, "w:") {
+							if b, err := hex.DecodeString(tok[2:]); err == nil && len(b) == 32 {
+								words = append(words, b)
+							}
+						}
+					}
 					switch k {
 					case 'u':
 						val = new(big.Int).SetBytes(r.Bytes(1 + r.Intn(8)))
+						if len(words) > 0 && r.Chance(3, 4) {
+							val = new(big.Int).SetBytes(core.Pick(r, words))
+						}
 					case 's':
 						val = "s1"
 					default:
 						val = r.Bytes(20)
+						if len(words) > 0 && r.Chance(3, 4) {
+							w := core.Pick(r, words)
+							val = w
+							if lf.name == "address" {
+								val = w[12:]
+							}
+						}
 					}
 				}
 				f = genFilter(r, k, val, true)
